@@ -55,6 +55,8 @@ func (h *Handler) Handle(ctx context.Context, req packet.Request) (packet.Respon
 	switch h.Mode {
 	case "typed-error":
 		return nil, packet.NewErrorParseTCP(h.Code, "handler refuses")
+	case "wrapped-typed-error": // the typed error inside a %w chain: errors.As still finds it
+		return nil, fmt.Errorf("handler: request refused: %w", packet.NewErrorParseTCP(h.Code, "handler refuses"))
 	case "generic-error":
 		return nil, ErrGeneric
 	case "panic":
